@@ -199,7 +199,11 @@ def gen_config(rng, opts=None):
         la, lb = rng.sample(filled, 2)
         ma, mb = rng.pick(la), rng.pick(lb)
         mb['type'] = ma['type']
-        ma['unique'] = mb['unique'] = False
+        # `unique` belongs to the type: every instance of it (a deliberate duplicate may share it already) is non-unique
+        for lst in all_lists:
+            for m in lst:
+                if m['type'] == ma['type']:
+                    m['unique'] = False
         cfg['nonunique_pair'] = [ma['mid'], mb['mid']]
     if render is not None and rng.chance(0.25):
         route['render_via_factory'] = True      # render argument is a template name, the function comes from a render factory
